@@ -16,7 +16,7 @@ import re
 
 import vlib
 
-PROPS = ['Rangers.Props.C11', 'Rangers.Props.C11B', 'Rangers.Props.C11C', 'Rangers.Props.C11D', 'Rangers.Props.C11E', 'Rangers.Props.C11F', 'Rangers.Props.C11G']
+PROPS = ['Rangers.Props.C11', 'Rangers.Props.C11B', 'Rangers.Props.C11C', 'Rangers.Props.C11D', 'Rangers.Props.C11E', 'Rangers.Props.C11F', 'Rangers.Props.C11G', 'Rangers.Props.C11H']
 DRIVERS = ['C11']
 META = dict(
     level='proof',
